@@ -49,7 +49,7 @@ def _lemma_one(args):
     try:
         res = []
         for sub, hyps, goal in fn():
-            v, backend, secs, model = api.solve_query(hyps, goal, [], 10000 if tier == "quick" else 60000)
+            v, backend, secs, model = api.solve_query(hyps, goal, [], 20000 if tier == "quick" else 60000)
             res.append({"name": f"{pid}/lemma:{name}/{sub}", "kind": "lemma", "fn": f"lemma:{name}", "verdict": v, "backend": backend, "secs": round(secs, 3), "model": model, "line": None, "clause": sub, "goal_txt": str(goal)[:300], "queries": 1})
         return {"fn": f"lemma:{name}", "status": "ok", "obligations": res, "solver_s": sum(r["secs"] for r in res), "feasible_exits": 1, "paths": 0}
     except Exception:  # noqa
@@ -86,7 +86,7 @@ def main():
             jobs = [("v", i) for i in range(n)] + [("l", i) for i in range(nl)]
             if a.only:
                 jobs = [j for j in jobs if a.only in (f"{built['verify'][j[1]].file}:{built['verify'][j[1]].qual}" if j[0] == "v" else "lemma:" + built["lemmas"][j[1]][0]) or any(a.only.find(x) >= 0 for x in [])]
-            timeout_ms = 10000 if a.tier == "quick" else 60000
+            timeout_ms = 20000 if a.tier == "quick" else 60000
             with ProcessPoolExecutor(max_workers=max(1, a.jobs)) as ex:
                 futs = [(ex.submit(_verify_one if k == "v" else _lemma_one, (pid, i, a.tier)), k, i) for k, i in jobs]
                 pending = []  # (report, future lists) — queries are solved while other functions still explore
